@@ -112,6 +112,12 @@ def canon_log(entries):
             out.append(('lost',))
         elif k == 'result':
             out.append(('result', e[1]))
+        elif k == 'send_event':
+            out.append(('send_event', ns_tok(e[1]), e[2] if isinstance(e[2], int) and e[2] >= 0 else 999))
+        elif k == 'emit':
+            out.append(('emit', bool(e[1])))
+        elif k == 'callback':
+            out.append(('callback', e[1]))
         else:
             out.append(('junk', repr(e)[:60]))
     return out
@@ -149,6 +155,12 @@ def eff_term(e):
         return '(FTaskEnd %d Reconnected)' % e[1]       # the outcome is ghost: ignored by eff_eqb
     if k == 'lost':
         return 'FLost'
+    if k == 'send_event':
+        return '(FSendEvent %d %d)' % e[1:]
+    if k == 'emit':
+        return '(FEmit %s)' % cbool(e[1])
+    if k == 'callback':
+        return '(FCallback %d)' % e[1]
     if k == 'result':
         return '(FResult %s)' % {'ok': 'ROk', 'connection_error': 'RConnectionError',
                                  'value_error': 'RValueError'}.get(e[1], 'ROther')
@@ -183,6 +195,10 @@ def event_term(ev):
         return 'Sigint'
     if k == 'timeout':
         return '(Timeout %d %s %s %s)' % (ev[1], outcome_term(ev[2]), cq(*ev[3]), cbool(ev[4]))
+    if k == 'emitcb':
+        return '(EmitCb %d)' % ev[1]
+    if k == 'sack':
+        return '(ServerAck %d %d)' % (ev[1], ev[2])
     raise ValueError(ev)
 
 
@@ -192,10 +208,12 @@ def params_term(p, fixed):
 
 
 def state_term(fs):
-    return '(mkObs %s %s %s %s %s %s %s %d %s)' % (
+    return '(mkObs %s %s %s %s %s %s %s %d %s %s)' % (
         cbool(fs['connected']), {'disconnected': 'EDisc', 'connected': 'EConn', 'disconnecting': 'EDisconnecting'}[fs['est']],
         clist([cnat(n) for n in fs['nss']]), args_term(fs['args']), clist([cnat(n) for n in fs['cns']]),
-        copt(fs['rtask'], cnat), cbool(fs['aflag']), fs['rcl'], clist([cnat(i) for i in fs['live']]))
+        copt(fs['rtask'], cnat), cbool(fs['aflag']), fs['rcl'], clist([cnat(i) for i in fs['live']]),
+        clist(['(%s, (%s, %s))' % (cnat(n), cnat(nxt), clist(['(%s, %s)' % (cnat(i), cnat(k)) for i, k in ent]))
+               for n, nxt, ent in fs['cbs']]))
 
 
 def case_term(sc, obs, fixed):
@@ -252,6 +270,13 @@ def _register(client, log):
             client.on(ev, h, namespace=name)
 
 
+def _make_cb(log, k):
+    def cb(*a):
+        log.append(('callback', k))
+    cb.k = k
+    return cb
+
+
 def _final_state(client, fake, live_ids, task_id_of):
     from socketio import base_client
     ab = client._reconnect_abort
@@ -268,7 +293,22 @@ def _final_state(client, fake, live_ids, task_id_of):
         'aflag': bool(ab.flag) if ab is not None else False,
         'rcl': sum(1 for c in base_client.reconnecting_clients if c is client),
         'live': live_ids,
+        'cbs': _callbacks_state(client),
     }
+
+
+def _callbacks_state(client):
+    """self.callbacks -> [(namespace token, next value of the id generator, [(id, callback number)])]."""
+    out = []
+    for ns, tab in client.callbacks.items():
+        gen = tab.get(0)
+        try:
+            nxt = int(repr(gen)[len('count('):-1])
+        except (TypeError, ValueError):
+            nxt = 999
+        out.append((ns_tok(ns), nxt, [(i if isinstance(i, int) else 999, getattr(cb, 'k', 999))
+                                      for i, cb in tab.items() if i != 0]))
+    return out
 
 
 def run_sync(sc):
@@ -286,6 +326,7 @@ def run_sync(sc):
     old_random, client_mod.random = client_mod.random, rnd
     old_osh = base_client.original_signal_handler
     effects, events, pre = [], [], []
+    ncb = [0]
     def do_event(ev):
         k = ev[0]
         if k == 'connect':
@@ -313,6 +354,17 @@ def run_sync(sc):
         elif k == 'sigint':
             base_client.original_signal_handler = lambda s, f: None
             base_client.signal_handler(signal.SIGINT, None)
+        elif k == 'emitcb':
+            cb = _make_cb(log, ncb[0])
+            try:
+                client.emit('ev', namespace=ns_name(ev[1]), callback=cb)
+                ncb[0] += 1
+                log.append(('emit', True))
+            except sio_exc.BadNamespaceError:
+                log.append(('emit', False))
+        elif k == 'sack':
+            from socketio import packet
+            fake.deliver(client.packet_class(packet.ACK, namespace=ns_name(ev[1]), id=ev[2], data=[]).encode())
         elif k == 'timeout':
             live = fake.live_tasks()
             fired = [False]
@@ -377,6 +429,7 @@ async def _run_async(sc):
     old_asyncio, client_mod.asyncio = client_mod.asyncio, AsyncioShim(fake)
     old_osh = base_client.original_signal_handler
     effects, events, pre = [], [], []
+    ncb = [0]
     async def do_event(ev):
         k = ev[0]
         if k == 'connect':
@@ -404,6 +457,17 @@ async def _run_async(sc):
         elif k == 'sigint':
             base_client.original_signal_handler = lambda s, f: None
             base_client.signal_handler(signal.SIGINT, None)
+        elif k == 'emitcb':
+            cb = _make_cb(log, ncb[0])
+            try:
+                await client.emit('ev', namespace=ns_name(ev[1]), callback=cb)
+                ncb[0] += 1
+                log.append(('emit', True))
+            except sio_exc.BadNamespaceError:
+                log.append(('emit', False))
+        elif k == 'sack':
+            from socketio import packet
+            await fake.deliver(client.packet_class(packet.ACK, namespace=ns_name(ev[1]), id=ev[2], data=[]).encode())
         elif k == 'timeout':
             ev[4] = False               # no switch point between awaits in the asyncio client
             live = fake.live_tasks()
@@ -461,8 +525,8 @@ def run_async(sc):
 # ------------------------------------------------------------------ pre-state snapshots / classifier
 def classify(sc, kind, obs, code):
     """Structural signature of a property violation (code has bit 2)."""
-    clauses = [c for c in range(2, 9) if code & (1 << c)]
-    if 8 in clauses:
+    clauses = [c for c in range(2, 10) if code & (1 << c)]
+    if clauses == [8]:
         live = []
         for i, (ev, es) in enumerate(zip(obs['events'], obs['effects'])):
             had = bool(live)
@@ -477,6 +541,9 @@ def classify(sc, kind, obs, code):
                 if ev[0] == 'loss' and obs['pre'][i] == 'stale':
                     return SIG_STALE, i
                 return 'no-effort-after-accidental-loss', i
+    if 9 in clauses:
+        return 'callbacks-survive-reconnection' + ('' if clauses == [9] else '+' + '+'.join(
+            'c%d' % c for c in clauses if c != 9)), None
     names = {2: 'delay', 3: 'attempts', 4: 'only-accidental', 5: 'abort', 6: 'single-effort', 7: 'same-parameters',
              8: 'retry'}
     return 'c10-' + '+'.join(names[c] for c in clauses or [8]), None
@@ -563,6 +630,17 @@ def structured(rng, params, pattern, abort_at, abort_kind, cause, after, race=Fa
     def r():
         return rng.choice(RS)
 
+    def cb_ops(prob):
+        # emits with a callback / ACKs from the server: before the loss, during the back-off
+        # (emit raises, ACK is not delivered), after the reconnection (ids must restart at 1)
+        while rng.random() < prob:
+            if rng.random() < 0.65:
+                evs.append(['emitcb', rng.choice(nss + nss + [rng.randrange(3)])])
+            else:
+                evs.append(['sack', rng.choice(nss + [rng.randrange(3)]), rng.choice([1, 1, 2, 0, 3])])
+            prob *= 0.7
+
+    cb_ops(0.6)
     if cause == 'loss':
         evs.append(['loss', r()])
     elif cause == 'disconnect':
@@ -574,6 +652,7 @@ def structured(rng, params, pattern, abort_at, abort_kind, cause, after, race=Fa
         evs.append(['sclose'])
     n_att = 0
     live = cause == 'loss' and params['reconnection']
+    cb_ops(0.25)
     for k, sym in enumerate(pattern):
         if abort_at is not None and k == abort_at:
             evs.append([abort_kind])
@@ -583,11 +662,13 @@ def structured(rng, params, pattern, abort_at, abort_kind, cause, after, race=Fa
             if live:
                 live = False
                 n_att = 0
+                cb_ops(0.6)
                 if k + 1 < len(pattern):          # a further loss right after the reconnection
                     evs.append(['loss', r()])
                     live = params['reconnection']
         else:
             evs.append(['timeout', 0, fail_outcome(rng, nss, sym), r(), False])
+            cb_ops(0.1)
             if live:
                 n_att += 1
                 if params['attempts'] and n_att >= params['attempts']:
@@ -614,6 +695,7 @@ def structured(rng, params, pattern, abort_at, abort_kind, cause, after, race=Fa
             evs.append(['timeout', 0, 'err', r(), False])
         else:
             evs.append([a])
+        cb_ops(0.3)
     return {'params': params, 'events': evs}
 
 
@@ -636,12 +718,17 @@ def random_walk(rng, params, n):
             evs.append(['disconnect'])
         elif x < 0.84:
             evs.append(['sdisc', rng.choice(nss + [rng.randrange(3)])])
-        elif x < 0.89:
+        elif x < 0.88:
             evs.append(['sclose'])
-        elif x < 0.96:
+        elif x < 0.94:
             evs.append(['shutdown'])
-        else:
+        elif x < 0.96:
             evs.append(['sigint'])
+        if rng.random() < 0.35:
+            if rng.random() < 0.6:
+                evs.append(['emitcb', rng.choice(nss + [rng.randrange(3)])])
+            else:
+                evs.append(['sack', rng.choice(nss + [rng.randrange(3)]), rng.choice([1, 1, 2, 0, 3])])
     return {'params': params, 'events': evs}
 
 
@@ -668,6 +755,10 @@ def scenarios(rng, thorough):
     yield 'corpus', {'params': dict(dflt, attempts=0), 'events': [       # edge: connect() during the back-off
         ['connect', a0, [0], 'a'], ['loss', [1, 4]], ['connect', a0, [0], 'a'], ['shutdown'],
         ['timeout', 0, 'a', [1, 2], False]]}
+    yield 'corpus', {'params': dict(dflt, attempts=0), 'events': [      # ids restart, stale ACK ignored
+        ['connect', a0, [0, 1], 'aa'], ['emitcb', 0], ['emitcb', 0], ['emitcb', 1], ['loss', [1, 4]],
+        ['emitcb', 0], ['sack', 0, 1], ['timeout', 0, 'aa', [1, 2], False], ['sack', 0, 1], ['emitcb', 0],
+        ['sack', 0, 1], ['sack', 1, 1]]}
     grid = param_grid(rng, 60 if thorough else 12)
     pats = list(all_patterns(4)) if not thorough else \
         list(all_patterns(5)) + [''.join(rng.choice('EERO') for _ in range(rng.choice([6, 7]))) for _ in range(900)]
@@ -754,7 +845,9 @@ def run(chk):
                 'of attempt outcomes (transport failure / namespace refusal or silence / success) up to length 4 '
                 '(thorough: 5, sampled to 7) x 12 (60) dyadic parameter points x abort positions x causes of loss '
                 'x follow-ups, plus random walks over all events; a case is non-trivial when it contains a loss of '
-                'a connected transport, a reconnect task, a back-off wait or a refused connection; distinct by the '
+                'a connected transport, a reconnect task, a back-off wait or a refused connection; emits with a '
+                'callback and server ACKs are interleaved before the loss, during the back-off and after the '
+                'reconnection; distinct by the '
                 'sequence of event kinds with outcome classes (and client kind)')
     chk.trusted_base = [
         'Coq 8.16.1 kernel + vm_compute (case evaluation)',
@@ -802,13 +895,13 @@ def run(chk):
         rep = {'client': kind, 'scenario': sc, 'fixed': fixed_of[kind], 'code': code}
         if code & 2:
             sig, at = classify(sc, kind, obs, code)
-            if code & 1:            # the model does not explain this run: not the known finding
-                sig += '-outside-model'
+            if code & 1 and sig in (SIG_STALE, SIG_WINDOW):
+                sig += '-outside-model'     # the model does not explain this run: not the known finding
             if sig not in (SIG_STALE, SIG_WINDOW):
                 new_failing_input = True
             chk.violation(sig, 'the real %s violates C10 (clauses %s) at event %s of the history' % (
                 'Client' if kind == 'sync' else 'AsyncClient',
-                [c for c in range(2, 9) if code & (1 << c)], at), rep)
+                [c for c in range(2, 10) if code & (1 << c)], at), rep)
         elif code & 1:
             disagree.append((idx, rep))
     if disagree:
@@ -851,7 +944,7 @@ def directed_search(chk, rng, bad_items, fixed_of):
             sig, at = classify(sc, kind, obs, code)
             before = len(chk.violations) + len(chk.known_hits)
             chk.violation(sig, 'directed search: the real %s violates C10 (clauses %s) at event %s' % (
-                kind, [c for c in range(2, 9) if code & (1 << c)], at),
+                kind, [c for c in range(2, 10) if code & (1 << c)], at),
                 {'client': kind, 'scenario': sc, 'fixed': fixed_of[kind], 'code': code})
             if sig not in (SIG_STALE, SIG_WINDOW) and len(chk.violations) + len(chk.known_hits) > before:
                 hit = True
@@ -880,7 +973,7 @@ def replay(chk, data):
         code = int(m.group(1)) if m else -1
         print('code %d: %s' % (code, ', '.join(
             ['model/implementation disagree'] * (code & 1) +
-            ['clause %d violated' % c for c in range(2, 9) if code > 0 and code & (1 << c)])))
+            ['clause %d violated' % c for c in range(2, 10) if code > 0 and code & (1 << c)])))
         if code > 0 and code & 2:
             print('signature:', classify(sc, kind, obs, code)[0])
     return 0 if code_ok else 1
